@@ -315,19 +315,29 @@ func (c *ClientConn) Receive(reader io.Reader) error {
 // If an unprepared error is encountered it attempts to prepare the query on the connection and re-execute the original
 // request.
 func (c *ClientConn) maybePrepareAndExecute(request Request, raw *frame.RawFrame) bool {
-	code, err := readInt(raw.Body)
-	if err != nil {
-		c.logger.Error("failed to read `code` in error response", zap.Error(err))
-		return false
+	// The error code can only be read directly from the body if the body isn't compressed and nothing precedes the
+	// message (tracing ID, custom payload, warnings); otherwise, the frame needs to be decoded to find out.
+	const prefixFlags = primitive.HeaderFlagCompressed | primitive.HeaderFlagTracing | primitive.HeaderFlagCustomPayload | primitive.HeaderFlagWarning
+	maybeUnprepared := true
+	if raw.Header.Flags&prefixFlags == 0 {
+		code, err := readInt(raw.Body)
+		if err != nil {
+			c.logger.Error("failed to read `code` in error response", zap.Error(err))
+			return false
+		}
+		maybeUnprepared = primitive.ErrorCode(code) == primitive.ErrorCodeUnprepared
 	}
 
-	if primitive.ErrorCode(code) == primitive.ErrorCodeUnprepared {
+	if maybeUnprepared {
 		frm, err := c.codec.ConvertFromRawFrame(raw)
 		if err != nil {
 			c.logger.Error("failed to decode unprepared error response", zap.Error(err))
 			return false
 		}
-		msg := frm.Body.Message.(*message.Unprepared)
+		msg, ok := frm.Body.Message.(*message.Unprepared)
+		if !ok {
+			return false
+		}
 		id := hex.EncodeToString(msg.Id)
 		if prepare, ok := c.preparedCache.Load(id); ok {
 			err = c.Send(&prepareRequest{
